@@ -8,6 +8,10 @@ NOTES = ("Model-based verification with explicit TLA+ specifications (specs/). E
 NOT_APPLICABLE = {}
 TRUST = "TLC and the Json community module; the renderer/tokeniser glue in lib/pp.py; the hook lines in /repo; bounded universes as stated in the evidence file"
 CHECKS = {
+ "C09": {"level": "model_checking", "design_ref": "DESIGN.md 4.2, 5 (C09)",
+         "technique": "TLA+ spec Preproc with Limit=3 model-checked with TLC over all include/usage graphs (safety: depth and stack bounded, machine = big-step reference; liveness: Terminates under weak fairness; refutation of the unthreaded-counter design); graphs and chains/cycles scaled to the real limit replayed into the preprocessor in isolated processes and validated by TLC with Limit=64",
+         "text": "Every who-uses/includes-whom graph over 3 files and 2 macros (macros may expand to includes) is model-checked for termination, bounded depth and exact error wrapping, then executed by the real library; chains of depth 1..130 and cycles of length 1..4 for macros, includes and macro-include mixes are executed and judged by TLC with the real limit: Ok with the expanded text up to 64 levels, ExceedRecursiveLimit under exactly the predicted Include wrappers beyond; a hang or stack overflow is an observable timeout/crash outcome that the trace spec rejects.",
+         "note": TRUST},
  "C03": {"level": "model_checking", "design_ref": "DESIGN.md 4.3, 5 (C03)",
          "technique": "TLA+ spec Origins (B-tree with the overlapping-range ordering vs. pushed segments) model-checked with TLC; push/merge hook events of real runs replayed through it and every byte's origin(p) validated by TLC (Origins_Trace); token and blank-run origins of TLC-exported and seeded programs validated against Preproc (Preproc_Trace)",
          "text": "The origin data structure is decided exhaustively for all push/merge sequences of the bound (and the empty-push counterexample is re-derived by a refutation config); for real runs every output byte's reported origin is compared by TLC with the replayed map and with the pushed segments, every token with the specification's copied/expanded/synthesised tag (exact offset for copies), blank runs with the copy/expansion rules, and get_origin of tokens with origin(first byte).",
